@@ -215,6 +215,14 @@ def run(report, prog, tier):
     rule_handshake(report, prog)
     rule_oversize(report, prog)
     rule_headers(report, prog)
+    # the fragments travel over a data link connection: its window / sequence / acknowledgement / MIU obligations are necessary
+    # conditions of this property too (reported under their C05 rule ids)
+    from . import c05
+    c05.rule_window(report, prog)
+    c05.rule_miu(report, prog)
+    c05.rule_miu_writes(report, prog)
+    c05.rule_sequence(report, prog)
+    c05.rule_mod16(report, prog)
     report.trusted += ['SNEP 1.0 message formats and Continue/Reject codes as tabulated in the rule', 'struct sizes of the checker interpreter']
     report.assumptions += ['in-order exactly-once delivery of each fragment is the data link connection\'s job (C05)']
 
